@@ -105,12 +105,18 @@ def check(text):
     return (rp, None)
 
 
+def _dump_of(t):
+    r = py_parse_obj(t, "f.c")
+    return dump(r[1], False) if r[0] == "OK" else "~"
+
+
 def run(ctx):
     texts = [t for t in progs.pool(ctx, scale=0.3) if len(t) < 5000] + EXTRA
     ctx.rule(progs.RULE + "; plus programs with quotes, backslashes and non-ASCII characters in literals, empty blocks and absent children: eval(repr(ast)) in the namespace of c_ast (structural equality, generated text), pickle protocols 2..HIGHEST and copy.deepcopy (equality incl. coordinates, generated text, no shared node objects, mutation independence); repr text compared with the Lean model of __repr__ for ASCII programs")
     res = pmap(check, texts)
     ascii_idx = [i for i, t in enumerate(texts) if res[i] is not None and t.isascii()]
-    md = run_model([req("repr", "f.c", texts[i]) for i in ascii_idx]) if ctx.model_available else None
+    dumps = pmap(_dump_of, [texts[i] for i in ascii_idx])
+    md = run_model([req("reprast", d) for d in dumps]) if ctx.model_available else None
     keys = set()
     for i, (t, r) in enumerate(zip(texts, res)):
         if r is None:
